@@ -39,6 +39,8 @@ func vC15Second(kind string, got interface{}, want []byte) {
 func vC15Check(kind string, v interface{}) {
 	o := vDocParams()
 	vPayloadFork = kind == "header" || kind == "items" || kind == "parameter" // the kinds whose lookups special-case simple-schema members
+	// upper-case extension prefix: every kind but the four largest (path count; stated in the bounds)
+	vExtUpper = kind != "schema" && kind != "swagger" && kind != "operation" && kind != "parameter"
 	doc := vJBytes(vBuildDoc(kind, 1, "d", o))
 	if json.Unmarshal(doc, v) != nil {
 		return
@@ -116,5 +118,37 @@ func vh_C15_Responses() {
 	if merr == nil {
 		vAssert(vJSONEq(gb, want), "responses: pointer lookup on the typed document differs from the lookup on its JSON form")
 		vC15Second("responses", got, want)
+	}
+}
+
+// paths: tokens are path names (one symbolic byte between "/" and a digit: "/~0", "/~1", "/%0", "/{0" are
+// among them) and extension names; the token handed to the typed document is the member name itself
+// (jsonpointer has already decoded it)
+func vh_C15_Paths() {
+	o := vDocParams()
+	doc := vJBytes(vBuildDoc("paths", 1, "d", o))
+	v := new(Paths)
+	if json.Unmarshal(doc, v) != nil {
+		return
+	}
+	enc, err := json.Marshal(v)
+	if err != nil {
+		return
+	}
+	token := vTopNames[vChoose(len(vTopNames), "token")]
+	vNote("token: " + token)
+	want, ok := vJSONMember(enc, token)
+	if !ok {
+		return
+	}
+	got, _, gerr := jsonpointer.GetForToken(v, token)
+	vAssert(gerr == nil, "paths: a pointer token that addresses a member of the JSON form fails on the typed document")
+	if gerr != nil {
+		return
+	}
+	gb, merr := json.Marshal(got)
+	if merr == nil {
+		vAssert(vJSONEq(gb, want), "paths: pointer lookup on the typed document differs from the lookup on its JSON form")
+		vC15Second("paths", got, want)
 	}
 }
